@@ -650,7 +650,9 @@ func defaultNamesDeterminism(c *Case, w *WF) (Verdict, bool) {
 		inc := RunInc(w, c.Tape, nil, 0, IncOpts{KillAt: -1, Strategy: strategyOf(c.Tape), Trace: c.Trace})
 		c.Absorb(inc)
 		m := map[string]string{}
-		for p, e := range WorkFiles(inc.Sim.FS.Root) {
+		wf3 := WorkFiles(inc.Sim.FS.Root)
+		for _, p := range sortedKeys(wf3) {
+			e := wf3[p]
 			if e.Kind == simrt.KFile && !strings.HasSuffix(p, ".audit.json") {
 				m[p] = string(e.Data)
 			}
